@@ -483,3 +483,54 @@ def cvc5_verdict(smt2_text, timeout_ms=20000):
         return res or 'unknown'
     except Exception as e:  # noqa
         return 'error: %s' % (str(e)[:120],)
+
+
+def _cond_polys(c):
+    if isinstance(c, bool):
+        return []
+    if c.op in ('and', 'or'):
+        return _cond_polys(c.a) + _cond_polys(c.b)
+    if c.op == 'not':
+        return _cond_polys(c.a)
+    return [c.a, c.b]
+
+
+PIECEWISE_SCALES = (Fraction(1), Fraction(1, 2 ** 30), Fraction(1, 2 ** 60))
+
+
+def has_selection(d):
+    """does the polynomial mention value-selection atoms (abs / ite), directly or through defined atoms?"""
+    todo = list(d.atoms()); seen = set()
+    while todo:
+        a = todo.pop()
+        if a in seen:
+            continue
+        seen.add(a)
+        k = P.ATOMS.kind[a]
+        if k in ('abs', 'ite'):
+            return True
+        if k in ('lin', 'opq', 'sqrt', 'inv'):
+            todo.extend(P.ATOMS.info[a].atoms())
+    return False
+
+
+class PiecewiseDecider:
+    """|d| <= tau * s on the box of radius s, for s in PIECEWISE_SCALES, with the defining constraints of abs/ite atoms: a
+    homogeneous (linear) specification is compared with an implementation that may select values by magnitude, so a fixed
+    absolute threshold inside the implementation shows up once the free variables are scaled down."""
+
+    def __init__(self, stats, timeout_ms=60000, scales=PIECEWISE_SCALES):
+        self.stats = stats; self.timeout_ms = timeout_ms; self.scales = scales; self.solvers = {}
+
+    def decide(self, d, tau, label=None):
+        worst = 'unsat'
+        for s_ in self.scales:
+            sv = self.solvers.get(s_)
+            if sv is None:
+                sv = self.solvers[s_] = Solver(stats=self.stats, timeout_ms=self.timeout_ms, default_box=(-s_, s_))
+            v, m = sv.decide(d, Fraction(tau) * s_, with_defs=True, label='%s@%s' % (label, s_))
+            if v == 'sat':
+                return v, m, s_
+            if v != 'unsat':
+                worst = v
+        return worst, None, None
